@@ -140,6 +140,60 @@ def oracle(case):
     return None
 
 
+def history_oracle(case):
+    """history: evaluate, fit, evaluate (and once more): after a fit the instance evaluates with the parameters it reports,
+    i.e. exactly like an instance constructed with them"""
+    cname, th = case["cls"], case["theta"]
+    Cls = D.get_class(cname)
+    # (the norm-fit log-normal's default mu_norm = 0 is not an admissible parameter vector: start from theta instead)
+    inst = Cls(**th) if cname == "LogNormalNormFitDistribution" else Cls(**{"f_" + p: th[p] for p in case["fixed"]})
+    x = np.array(case["xs"], dtype=float)
+    pq = np.array([0.1, 0.5, 0.9])
+    sig = {"cls": cname, "clause": "history-fit", "method": case["method"], "fixed": "+".join(sorted(case["fixed"]))}
+    inst.cdf(x), inst.pdf(x), inst.icdf(pq)            # evaluated before the fit (whatever is cached is cached now)
+    for rep, scale in enumerate((1.0, 1.7)):
+        data = np.asarray(Cls(**th).draw_sample(case["n"], random_state=case["seed"] + rep), dtype=float) * (scale if cname != "VonMisesDistribution" else 1.0)
+        try:
+            inst.fit(data, method=case["method"], weights=case.get("weights"))
+        except NotImplementedError:
+            return None
+        except Exception:  # noqa  (fitting itself is C11/C12/C13's subject)
+            return None
+        pars = {k: float(v) for k, v in inst.parameters.items()}
+        if not all(np.isfinite(v) for v in pars.values()):
+            return None
+        fresh = Cls(**pars)
+        for m, arg in (("cdf", x), ("pdf", x), ("icdf", pq)):
+            a, b = np.asarray(getattr(inst, m)(arg), dtype=float), np.asarray(getattr(fresh, m)(arg), dtype=float)
+            if not np.array_equal(a, b, equal_nan=True):
+                return (sig, "%s(%s): after fit number %d (method %r) the instance reports %r but its %s(x) = %r, an instance constructed with these parameters gives %r"
+                        % (cname, ", ".join("f_%s=%r" % (p, th[p]) for p in case["fixed"]), rep + 1, case["method"], pars, m, a.tolist()[:4], b.tolist()[:4]))
+    return None
+
+
+def gen_history_cases(rng, reps):
+    out = []
+    for cname, info in D.FAMS.items():
+        ps = info["params"]
+        for rep in range(reps):
+            th = D.rand_params(rng, cname)
+            if cname == "WeibullDistribution":
+                th["gamma"] = 0.0
+            if cname == "VonMisesDistribution":
+                th["mu"] = rng.uniform(-2, 2)
+            subsets = [[]] + [[p] for p in ps] if cname != "LogNormalNormFitDistribution" else [[]]
+            for fx in subsets:
+                methods = [("mle", None)]
+                if cname == "ExponentiatedWeibullDistribution":
+                    methods += [("wlsq", rng.choice([None, "linear", "quadratic", "cubic"])), ("lsq", None)]
+                for meth, w in methods:
+                    if cname == "ExponentiatedWeibullDistribution" and meth != "mle" and fx not in ([], ["delta"]):
+                        continue
+                    out.append({"history": True, "cls": cname, "theta": th, "fixed": fx, "method": meth, "weights": w, "n": rng.choice([60, 200]),
+                                "seed": rng.randrange(10 ** 6), "xs": D.support_points(rng, cname, th, 5)})
+    return out
+
+
 def gen_case(rng):
     cname = rng.choice(list(D.FAMS))
     ps = D.FAMS[cname]["params"]
@@ -159,7 +213,7 @@ def replay(ctx, case):
     if case.get("kind") == "translator":
         print("  translator/correspondence mismatch recorded:", case.get("what"))
         return True
-    o = oracle(case)
+    o = history_oracle(case) if case.get("history") else oracle(case)
     if o:
         print("  ", o[1])
     return o is not None
@@ -206,6 +260,16 @@ def run(ctx):
                 found += 1
                 if found >= 8:
                     break
+    hcases = gen_history_cases(rng, ctx.n(1, 4))
+    for c in hcases:
+        ctx.count(("history", c["cls"], tuple(c["fixed"]), c["method"], c["seed"]), True)
+        try:
+            o = history_oracle(c)
+        except Exception as e:  # noqa
+            o = ({"cls": c["cls"], "clause": "exception", "exc": type(e).__name__}, "history raised %s: %s" % (type(e).__name__, e))
+        if o is not None and ctx.violation(o[0], o[1], c):
+            break
+    ctx.notes["history_cases"] = len(hcases)
     # ScipyDistribution subclasses: every single-parameter override, by keyword and by position, zero values included
     try:
         import scipy.stats as sts_
